@@ -193,3 +193,11 @@ Definition is_err {A : SArith} (o : res (iout A)) : bool :=
 Lemma is_err_witness {A : SArith} (o : res (iout A)) :
   is_err o = true -> exists e x g, o = Ok (IErr e, x, g).
 Proof. destruct o as [[[[k|e] x] g]|p]; cbn; intros H; try discriminate. eauto. Qed.
+
+(* the last row of kr_s = [[2,-1],[0,1]] is (0, 1) *)
+Lemma kr_last_row : (forall j, (j < 1)%nat -> @sp_entry AR kr_s 1 j = 0%R) /\ @sp_entry AR kr_s 1 1 <> 0%R.
+Proof.
+  split.
+  - intros j Hj. destruct j; [reflexivity | lia].
+  - unfold sp_entry, suml, seg. cbn. lra.
+Qed.
